@@ -89,8 +89,11 @@ def make_world(rng, shape=None, coords="random", max_dim=3, max_len=5, nd_catego
     d.add_component(common.rand_floats(rng, shape), "v")
     d.add_component(common.injective_floats(rng, shape), "w")
     d.add_component(common.rand_ints(rng, shape), "i")
+    # large-magnitude, closely spaced values (e.g. epoch time stamps): selections on it differ in membership while their
+    # bounds agree to a relative 1e-9 - aimed at tolerance-based "nothing changed" shortcuts
+    d.add_component(1.6e9 + common.injective_floats(rng, shape, 0.0, 3.0 * int(np.prod(shape))), "big")
     W.d, W.shape, W.nd, W.coords = d, tuple(shape), nd, coords
-    for n in ("v", "w"):
+    for n in ("v", "w", "big"):
         W.atts[n], W.kinds[n] = d.id[n], "stored"
     W.atts["i"], W.kinds["i"] = d.id["i"], "int"
     if nd == 1 or nd_categorical:
@@ -205,6 +208,19 @@ def rand_slice_triple(rng, n):
     st = rng.choice([None, None, 1, 2, 3])
     return rng.choice([[None, None, None], [a, b, st], [min(a, b), max(a, b), st], [a, None, st], [None, b, st],
                        [None, None, st], [0, max(a, b, 1), st]])
+
+
+def close_leaf(rng, W, prev=None):
+    """A range / inequality / multi-range on the large-magnitude attribute; with `prev`, the same kind of selection
+    with freshly picked bounds (a user dragging a bound a little)."""
+    kind = prev["k"] if prev is not None else rng.choice(["range", "range", "ineq", "multirange"])
+    if kind == "range":
+        lo, hi = pick_interval(rng, W, "big")
+        return {"k": "range", "att": "big", "lo": lo, "hi": hi}
+    if kind == "ineq":
+        op = prev["op"] if prev is not None else rng.choice(["gt", "ge", "lt", "le"])
+        return {"k": "ineq", "att": "big", "op": op, "val": pick_value(rng, W, "big")}
+    return {"k": "multirange", "att": "big", "pairs": [list(pick_interval(rng, W, "big")) for _ in range(2)]}
 
 
 def rand_leaf(rng, W, kind=None):
